@@ -535,6 +535,11 @@ func (e *c09Env) op(tok string) string {
 		e.pool.PreAllocWorkerSize(num(1))
 		e.settle()
 		return "pre"
+	case "sy":
+		// let the pool come to rest (spawn loop waiting, workers in their select / gates / park points)
+		time.Sleep(2 * time.Millisecond)
+		e.settle()
+		return "sy"
 	case "jam":
 		// set while every worker sits in a gated job: the jam rule then depends on nothing that is still moving
 		e.pool.SetWorkerJamDuration(c09Dur(num(1)))
@@ -602,6 +607,8 @@ func c09RunStress(line string) string {
 	}
 	tiny := c09Cfg(toks, "tiny", 0) == 1
 	pans, slows := c09List(toks, "pan"), c09List(toks, "slow")
+	slowAll := c09Cfg(toks, "slowall", 0) == 1
+	burst, pause := c09Cfg(toks, "burst", 0), c09Cfg(toks, "pause", 0)
 	seed := int64(c09Cfg(toks, "seed", 1))
 	e := c09NewEnv(toks, c09Cfg(toks, "exp", 0))
 	defer e.cleanup()
@@ -623,8 +630,8 @@ func c09RunStress(line string) string {
 		if pans[k] {
 			kind = "q" + strconv.Itoa(k%97+1)
 		}
-		if slows[k] {
-			slow = 500 + int(seed+int64(k))%1500
+		if slows[k] || slowAll {
+			slow = 300 + int(seed+int64(k)*7)%1500
 		}
 		fns[k] = e.mkJob(k, kind, slow)
 	}
@@ -684,7 +691,11 @@ func c09RunStress(line string) string {
 						viol("full-from-ScheduleWithTimeout")
 					}
 				}
-				if rng.Intn(3) == 0 {
+				if burst > 0 {
+					if (k/subs+1)%burst == 0 {
+						time.Sleep(time.Duration(pause)*time.Millisecond + time.Duration(rng.Intn(400))*time.Microsecond)
+					}
+				} else if rng.Intn(3) == 0 {
 					time.Sleep(time.Duration(rng.Intn(300)) * time.Microsecond)
 				}
 			}
@@ -840,6 +851,18 @@ func c09Gen(tier string, rng *rand.Rand, emit func(string)) map[string]interface
 	sched("max=2 sb=2 batch=0 c=4 b=0", "hs:40", "s:0:p7", "s:1:p8", "w:2/2/0", "s:2:f", "s:3:f", "r:0", "r:1", "w:2/0/4")
 	sched("max=1 sb=1 batch=0 c=4 b=0", "hs:25", "s:0:q1", "s:1:q2", "s:2:f", "w:1/0/3")
 
+	// on-demand pool (standby 0, batch 1): the only worker died on a panic; the next Schedule is held between its
+	// closed check and the Offer while the spawn loop comes to rest — its wake-up must come after the Offer
+	sched("max=4 sb=0 batch=1 c=4 b=0", fmt.Sprintf("s:0:q%d", v()), "w:0/0/1", "park:sched:1", "as:1:f", "sy", "rel:sched", "j:1", "w:1/0/2")
+	sched("max=2 sb=0 batch=1 c=2 b=1", "s:0:q1", "w:0/0/1", "s:1:q2", "w:0/0/2", "park:sched:1", "as:2:g", "sy", "rel:sched", "j:2", "w:1/1/2", "r:2", "w:1/0/3")
+	sched("max=4 sb=0 batch=2 c=4 b=0", "park:sched:1", "as:0:f", "sy", "rel:sched", "j:0", "w:1/0/1", "s:1:q7", "w:0/0/2", "park:sched:1", "as:2:f", "sy", "rel:sched", "j:2", "w:1/0/3")
+	// a surplus worker that has retired (held at expiry.decided) must not serve a burst on its way out: with the
+	// pool refilled to its maximum that would be max+1 jobs at once
+	sched("max=2 sb=1 batch=1 c=4 b=0", "pre:2", "exp:30", "s:0:g", "s:1:g", "w:2/2/0", "park:expiry:1", "r:0", "r:1", "expire:1", "w:1/0/2",
+		"exp:0", "s:2:g", "s:3:g", "s:4:g", "w:2/2/2", "rel:expiry", "sy", "w:2/2/2", "r:2", "r:3", "r:4", "w:2/0/5")
+	sched("max=1 sb=0 batch=1 c=4 b=0", "s:0:g", "w:1/1/0", "exp:30", "park:expiry:1", "r:0", "expire:1", "w:0/0/1", "exp:0", "s:1:g", "w:1/1/1", "s:2:g",
+		"rel:expiry", "sy", "w:1/1/1", "r:1", "r:2", "w:1/0/3")
+
 	// (2) expiry race: idle workers above standby expire together while a job is being accepted
 	sched("max=2 sb=1 batch=0 c=2 b=0", "pre:2", "exp:30", "s:0:g", "s:1:g", "w:2/2/0", "park:expiry:1", "r:0", "r:1", "expire:1",
 		"w:1/0/2", "s:2:f", "w:1/0/3", "rel:expiry", "w:1/0/3")
@@ -971,6 +994,7 @@ func c09Gen(tier string, rng *rand.Rand, emit func(string)) map[string]interface
 		stress("max=4 sb=2 batch=1 c=3 b=1000 exp=5 n=%d sub=8 pan=%s slow=%s mode=t jit=1 seed=%d", n, pick(n, 4), pick(n, 10), rng.Intn(1000))
 		stress("max=2 sb=0 batch=1 c=2 b=1000 exp=0 n=%d sub=3 pan=%s slow=%s mode=i jit=1 seed=%d", n, pick(n, 4), pick(n, 5), rng.Intn(1000))
 		stress("max=2 sb=2 batch=0 c=1 b=1000 exp=3 n=%d sub=2 pan=%s slow=%s mode=it jit=0 seed=%d", n, pick(n, 6), pick(n, 5), rng.Intn(1000))
+		stress("max=2 sb=1 batch=1 c=4 b=1000 exp=2 n=%d sub=2 pan=%s slow= mode=s jit=1 seed=%d slowall=1 burst=4 pause=3", n, pick(n, 3), rng.Intn(1000))
 		stress("max=2 sb=1 batch=1 c=1 b=0 exp=10 n=%d sub=4 pan=%s slow=%s mode=s jit=1 seed=%d tiny=1", n, pick(n, 5), pick(n, 10), rng.Intn(1000))
 		stress("max=1 sb=1 batch=0 c=1 b=1 exp=0 n=%d sub=3 pan=%s slow=%s mode=t jit=0 seed=%d tiny=1", n, pick(n, 5), pick(n, 10), rng.Intn(1000))
 	}
